@@ -192,6 +192,12 @@ const GENERIC_SNIPPETS: &[[&str; 3]] = &[
         "Gres :: enum(*T, *E)\n    Ok *T,\n    Err *E,\nend\n\nGpr :: blob(*V, *K) {\n    val: *V,\n    key: *K,\n}\n\ngr1: Gres : Gres.Ok 1\n\ngr2: Gres(int, str) : Gres.Err \"bad\"\n\ngp1 :: Gpr { val: \"v\", key: 7 }\n\ngunwrap :: fn r: Gres, d -> int do\n    case r do\n        Ok x ->\n            x\n        end\n        Err e ->\n            d\n        end\n    end\nend\n\ngkey :: fn p: Gpr(str, int) ->\n    p.key + 1\nend\n\ngswap :: fn p -> Gpr(int, str) do\n    Gpr { val: p.key, key: p.val }\nend\n\nguse7 :: fn do\n    print(gunwrap(gr1, 0))\n    print(gunwrap(gr2, 5))\n    print(gkey(gp1))\n    print(gp1.val + \"!\")\n    print(gswap(gp1).key + \"?\")\nend\n",
         "Gres :: enum(*T, *E)\n    Ok *T,\n    Err *E,\nend\n\nGpr :: blob(*V, *K) {\n    val: *V,\n    key: *K,\n}\n\ngr1 :: Gres.Ok 1\n\ngr2 :: Gres.Err \"bad\"\n\ngp1 :: Gpr { val: \"v\", key: 7 }\n\ngunwrap :: fn r, d ->\n    case r do\n        Ok x ->\n            x\n        end\n        Err e ->\n            d\n        end\n    end\nend\n\ngkey :: fn p ->\n    p.key + 1\nend\n\ngswap :: fn p ->\n    Gpr { val: p.key, key: p.val }\nend\n\nguse7 :: fn do\n    print(gunwrap(gr1, 0))\n    print(gunwrap(gr2, 5))\n    print(gkey(gp1))\n    print(gp1.val + \"!\")\n    print(gswap(gp1).key + \"?\")\nend\n",
     ],
+    // locals and parameters named like the namespace their (qualified) type lives in; annotations written / partly written / erased
+    [
+        "gq_size :: fn set: set.Set(int) -> int do\n    set.len(set)\nend\n\ngq_tally :: fn words: [str] -> dict.Dict(str, int) do\n    dict: dict.Dict(str, int) = dict.new()\n    for_each(words, fn w: str -> void do\n        n: int = maybe.orDefault(dict.get(dict, w), 0)\n        dict.update(dict, w, n + 1)\n    end)\n    dict\nend\n\nguse8 :: fn -> void do\n    seen: set.Set(int) = set.from_list([1, 2, 2, 3])\n    print(gq_size(seen))\n    counts: dict.Dict(str, int) = gq_tally([\"a\", \"b\", \"a\"])\n    print(dict.get(counts, \"a\"))\n    print(dict.get(counts, \"c\"))\nend\n",
+        "gq_size :: fn set: set.Set(int) ->\n    set.len(set)\nend\n\ngq_tally :: fn words ->\n    dict: dict.Dict(str, int) = dict.new()\n    for_each(words, fn w do\n        n := maybe.orDefault(dict.get(dict, w), 0)\n        dict.update(dict, w, n + 1)\n    end)\n    dict\nend\n\nguse8 :: fn do\n    seen := set.from_list([1, 2, 2, 3])\n    print(gq_size(seen))\n    counts: dict.Dict(str, int) = gq_tally([\"a\", \"b\", \"a\"])\n    print(dict.get(counts, \"a\"))\n    print(dict.get(counts, \"c\"))\nend\n",
+        "gq_size :: fn set ->\n    set.len(set)\nend\n\ngq_tally :: fn words ->\n    dict := dict.new()\n    for_each(words, fn w do\n        n := maybe.orDefault(dict.get(dict, w), 0)\n        dict.update(dict, w, n + 1)\n    end)\n    dict\nend\n\nguse8 :: fn do\n    seen := set.from_list([1, 2, 2, 3])\n    print(gq_size(seen))\n    counts := gq_tally([\"a\", \"b\", \"a\"])\n    print(dict.get(counts, \"a\"))\n    print(dict.get(counts, \"c\"))\nend\n",
+    ],
 ];
 
 // ------------------------------------------------------------------ C08
@@ -929,6 +935,51 @@ fn plant_self(p: &Program, rng: &mut Rng) -> Option<Program> {
     }
 }
 
+/// Names with a capital initial. The parser states "Variables have to start with a lowercase letter" but enforces
+/// it for case bindings only, so parameters, locals, local functions and globals may be capitalised. Two
+/// hand-written programs use @-marked names in exactly those positions; the spelling with capital initials must give
+/// the Lua of the lower-case spelling. Should the parser start enforcing its rule (a syntax error), there is no verdict.
+const CAPITAL_TEMPLATES: &[&str] = &[
+    "@limit :: 100\n\ncap_at :: fn value: int, @limit: int -> int do\n    if value > @limit do\n        ret @limit\n    end\n    value\nend\n\nstart :: fn do\n    print(cap_at(250, 10))\n    print(@limit)\nend\n",
+    "P :: blob {\n    n: int,\n}\n\nstart :: fn do\n    @total := 1\n    @total += 2\n    @konst :: @total * 2\n    @typed: int = @konst\n    @helper :: fn @a: int -> int do\n        @a + @typed\n    end\n    @pt := P { n: @helper(1) }\n    @pt.n = @pt.n + 1\n    @tup := (@pt.n, 2)\n    for_each([1, 2], fn @elem do\n        print(@elem + @tup[0])\n    end)\n    @fun := fn -> int do\n        @total\n    end\n    print(@fun() + @total)\nend\n",
+];
+
+fn capital_case(index: u64, st: &mut Stats) {
+    let t = CAPITAL_TEMPLATES[index as usize % CAPITAL_TEMPLATES.len()];
+    let mut upper = String::new();
+    let mut cap_next = false;
+    for c in t.chars() {
+        if c == '@' {
+            cap_next = true;
+        } else if cap_next {
+            upper.extend(c.to_uppercase());
+            cap_next = false;
+        } else {
+            upper.push(c);
+        }
+    }
+    let lower = t.replace('@', "");
+    st.count("capital_initial_templates");
+    let viol = |sig: &str, obs: String| Violation { signature: sig.to_string(), hazard: None, case: index, detail: J::obj().with("lower_case_spelling", J::s(lower.clone())).with("capitalised_spelling", J::s(upper.clone())).with("observed", J::s(obs)) };
+    match (compile_budgeted(&lower), compile_budgeted(&upper)) {
+        (Compiled::Ok(a), Compiled::Ok(b)) => {
+            if a == b {
+                st.count("capital_initial_templates_equal");
+            } else {
+                st.violation(viol("rel:lua-differs-for-capitalised-names", "both spellings are accepted but give different Lua".into()));
+            }
+        }
+        (Compiled::Ok(_), Compiled::Err { errors, .. }) => {
+            if errors.iter().all(|e| e.kind == "syntax") {
+                st.count("capital_initial_templates_no_verdict(parser_enforces_lower_case)");
+            } else {
+                st.violation(viol("rel:acceptance-differs-for-capitalised-names", errors.first().map(|e| e.display.clone()).unwrap_or_default().chars().take(300).collect()));
+            }
+        }
+        (a, _) => st.violation(viol("rel:capital-template-rejected", a.brief())),
+    }
+}
+
 impl Check for C09 {
     fn id(&self) -> &'static str {
         "C09"
@@ -937,6 +988,9 @@ impl Check for C09 {
         scaled(ctx, 6_000, 150_000)
     }
     fn run_case(&self, ctx: &Ctx, index: u64, st: &mut Stats) {
+        if (index as usize) < CAPITAL_TEMPLATES.len() {
+            capital_case(index, st);
+        }
         let mut rng = Rng::for_case(ctx.seed, "C09", index);
         let mut cfg = Cfg::general(2 + (index % 2) as u32);
         cfg.profile = Profile::Binders;
